@@ -167,6 +167,35 @@ fn run(scripts: &str, trace: &str, opts: &Opts) -> Res<()> {
                             }
                         }
                     }
+                    "CreateEdgeP" => {
+                        let (s_, d_) = (nid("s", &hn), nid("d", &hn));
+                        x.insert("s".into(), json!(s_));
+                        x.insert("d".into(), json!(d_));
+                        let mut m = samyama::graph::PropertyMap::new();
+                        m.insert("p".to_string(), val_of(gs(step, "v")));
+                        match st.create_edge_with_properties(NodeId::new(s_), NodeId::new(d_), gs(step, "t"), m) {
+                            Ok(e) => {
+                                he.push(e.as_u64());
+                                x.insert("id".into(), json!(e.as_u64()));
+                                x.insert("res".into(), json!("ok"));
+                            }
+                            Err(_) => {
+                                x.insert("id".into(), json!(0));
+                                x.insert("res".into(), json!("err"));
+                            }
+                        }
+                    }
+                    "SetColumnProp" => {
+                        let n = nid("n", &hn);
+                        x.insert("n".into(), json!(n));
+                        st.set_column_property(NodeId::new(n), "p", val_of(gs(step, "v")));
+                    }
+                    "RemoveEdgeProp" => {
+                        let e = he[gi(step, "e") as usize - 1];
+                        x.insert("e".into(), json!(e));
+                        st.remove_edge_property(EdgeId::new(e), "p");
+                    }
+                    "Clear" => st.clear(),
                     "DeleteEdge" => {
                         let e = he[gi(step, "e") as usize - 1];
                         x.insert("e".into(), json!(e));
